@@ -99,6 +99,7 @@ static void gen_list(std::vector<V> &out, int maxn, bool arrays, const char *onl
       V s = gen_scalar(t), d; d.t = t;
       if (t == 'f' || t == 'd') { d.d = vf::oneof<double>({0.25, 0.5, 1.0, -0.5, 2.0, -1.0}); s.d = (double)vf::pick<int>(-40, 40) / 4.0; }
       else { d.i = vf::oneof<int>({1, -1, 2, 3, -3, 10}); s.i = t == 'c' ? vf::pick<int>(50, 90) : vf::pick<int>(-50, 50); }
+      if (!out.empty() && out.back().t == t && vf::chance(30)) s = out.back();   // a run that starts with the value in front of it (adjacent runs sharing a value)
       int r = vf::pick<int>(1, 9);
       for (int i = 0; i < r && (int)out.size() < n + 8; i++) { V e = avg::nth(s, d, i); if (t == 'c' && (e.i < 32 || e.i > 126)) break; out.push_back(e); }
     } else out.push_back(gen_scalar(t));
